@@ -249,7 +249,11 @@ def r_map_bound(ctx: Ctx, rule: str) -> None:
         for c in ctors:
             a = c.ast.args[0] if c.ast.args else next((k.value for k in c.ast.keywords if k.arg == "value"), None)
             ok = isinstance(a, ast.Name) and expr_role(ctx, f, a) == "NCONC"
-            rep.ob(rule, "the map semaphore is created with exactly num_concurrent slots", ok, node=c, detail=f"Semaphore({ast.unparse(a) if a is not None else ''})")
+            # ... the request's own number: a parameter re-bound on the way (clamped to the pool size of the moment, say) is another quantity
+            rebound = isinstance(a, ast.Name) and a.id in sc.params and bool(sc.defs.get(a.id))
+            rep.ob(rule, "the map semaphore is created with exactly num_concurrent slots", ok and not rebound, node=c,
+                   detail=f"Semaphore({ast.unparse(a) if a is not None else ''})" + (f": `{a.id}` is re-bound in {f.short} before it is used - the bound of the call is then "
+                                                                                     "whatever that computation gave when the call started, not num_concurrent" if rebound else ""))
             rep.ob(rule, "the map semaphore is created once, outside the loop", not c.loops, node=c)
         # the wrapper is built for the same semaphore and the request's end callback
         wr = ctx.distinct_sites(ctx.nodes(f, lambda n: ctx.is_call_to(n, "_get_map_end_callback")))
